@@ -763,9 +763,10 @@ func (e *Exec) isZapPrivateComp(n string) bool {
 	if strings.HasPrefix(n, "E:") {
 		switch n[2:] {
 		case "bool", "int", "int8", "int16", "int32", "int64", "uint", "uint16", "uint32", "uint64", "uintptr",
-			"float32", "float64", "complex64", "complex128", "string", "__uint8", "time.Duration":
+			"float32", "float64", "complex64", "complex128", "string", "__uint8", "time.Duration", "interface__":
 			// slices of plain values handed to user code (encoders, sinks) are not modified by it:
-			// the same encapsulation rely as for byte slices
+			// the same encapsulation rely as for byte slices ([]interface{}: the argument lists of the
+			// sugared API and of fmt - user cores and hooks called back in between do not rewrite them)
 			return true
 		}
 	}
@@ -1357,7 +1358,13 @@ func (e *Exec) builtin(b *ssa.Builtin, common *ssa.CallCommon, st *State, pos to
 			return Val{T: fmt.Sprintf("(sl_cap %s)", args[0].T), S: c.intS(), GT: intT}
 		}
 	case "append":
-		return e.builtinAppend(common, args, st, pos)
+		// ghost code may be attached to the n-th append of the function (static order): ghost-at call n of append before|after
+		e.callOrd["append"]++
+		ord := e.callOrd["append"]
+		e.ghostAt("append", ord, true, st)
+		r := e.builtinAppend(common, args, st, pos)
+		e.ghostAt("append", ord, false, st)
+		return r
 	case "copy":
 		return e.builtinCopy(common, args, st, pos)
 	case "delete":
@@ -1605,6 +1612,16 @@ func (e *Exec) ghostAt(callee string, ord int, before bool, st *State) {
 		}
 		sc := e.scope(st.heap, c.entry)
 		sc.where = "ghost-at " + g.Name
+		if len(e.loopHeadNames) > 0 {
+			nm := map[string]Val{}
+			for k, v := range e.loopHeadNames {
+				nm[k] = v
+			}
+			for k, v := range e.names {
+				nm[k] = v
+			}
+			sc.names = nm
+		}
 		sc.evalIdent(g.Name)
 		idx := sc.rvalue(sc.eval(g.Idx))
 		val := sc.rvalue(sc.eval(g.Val.E))
